@@ -93,6 +93,17 @@ def parseImpl (impl : String) : Option (List Nat × String) :=
     ((hs.splitOn ";").mapM fun (e : String) => ((e.splitOn "/").head?).bind String.toNat?).map (·, fp)
   | _ => none
 
+/-- the sort value each returned hit carries, as printed by the implementation: (hit number, keys) -/
+def parseImplKeys (impl : String) : List (Nat × String) :=
+  match impl.splitOn "|so=" with
+  | [hs, _] =>
+    if hs == "none" then [] else
+    (hs.splitOn ";").filterMap fun (e : String) =>
+      match e.splitOn ":" with
+      | [hd, ks] => (((hd.splitOn "/").head?).bind String.toNat?).map (·, ks)
+      | _ => none
+  | _ => []
+
 /-- the loop of `Collect`, recording which path each match took -/
 def runTraced (c : Coll) (ms : List Match) : Coll × List Branch :=
   ms.foldl (fun (acc : Coll × List Branch) d =>
@@ -125,6 +136,11 @@ def doSearch (st : St) (refName : String) (r : RefD) (req : Request) (kind : Kin
         if r.distinct then some (lastN req.n (r.ranking.filter fun d => cmpKeys declared d.keys a = .lt)) else none
     | _, none => none
   let implP := parseImpl impl
+  -- every returned hit must carry the sort value of ITS document (the one in the reference list)
+  let foreignKeys := (parseImplKeys impl).any fun (h, ks) =>
+    match r.ms[h - 1]? with
+    | some m => h == 0 || keysToStr m.keys != ks
+    | none => true
   let verdict := if panics then (if impl == "panic" then "na" else "ok") else
     match implP with
     | none => "ok"     -- unparsable implementation output: the string comparison reports it
@@ -132,9 +148,11 @@ def doSearch (st : St) (refName : String) (r : RefD) (req : Request) (kind : Kin
       match expected with
       | some e =>
         if ih != hitNums e then s!"bad:not-the-slice{cause} expected={numsToStr (hitNums e)}"
+        else if foreignKeys then s!"bad:hit-carries-another-sort-value{cause}"
         else if ifp != fingerprint r.spec declared then s!"bad:request-sort-order-changed{cause}"
         else "ok"
       | none =>
+        if foreignKeys then s!"bad:hit-carries-another-sort-value{cause}" else
         if ifp != fingerprint r.spec declared then s!"bad:request-sort-order-changed{cause}" else "ok"
   let tags : List String :=
     brs.map Branch.name ++
@@ -221,7 +239,8 @@ def c09step (st : St) (op : String) (impl : String) : St × String :=
                        ranking := sort declared ms }
     let wf := implKeys.all fun k => k.length == spec.length
     ({ st with refs := (name, rd) :: st.refs },
-      modelRes ++ sep ++ (if wf then "ok" else "bad:sort-value-has-wrong-number-of-keys") ++
+      modelRes ++ sep ++ (if !wf then "bad:sort-value-has-wrong-number-of-keys"
+        else if modelRes != impl then "bad:sort-value-is-not-the-value-of-the-documents-field" else "ok") ++
         " br=ref" ++ (if rd.distinct then ",ref-distinct" else ",ref-ties") ++ (if ms.isEmpty then ",ref-empty" else ""))
   | ["sortvar", v, rname] =>
     match lookup rname st.refs with
